@@ -490,4 +490,10 @@ def rule_r4(ctx) -> RuleResult:
 
 
 def run(ctx) -> list:
-    return [rule_r1(ctx), rule_r2(ctx), rule_r3(ctx), rule_r4(ctx)]
+    results = [rule_r1(ctx), rule_r2(ctx), rule_r3(ctx), rule_r4(ctx)]
+    if ctx.thorough:
+        from ..core.callgraph import CallGraph
+        from ..core.cgcheck import crosscheck
+
+        results.append(crosscheck(ctx, CallGraph(ctx.index), "C16.CG"))
+    return results
